@@ -19,6 +19,8 @@ type mapDriver struct {
 	// lossy marks keys whose entry may have been displaced by a colliding key (C09): a read may
 	// find nothing, but never somebody else's entry.
 	lossy map[string]bool
+	// family maps a key to the id of its hash-collision family (only set by C09).
+	family map[string]int
 	// counters for C18 (model side)
 	cnt modelCounts
 }
@@ -74,6 +76,16 @@ func (d *mapDriver) write(key []byte, val interface{}, ttl time.Duration, viaSto
 	e := d.ref.write(now, key, val, ttl)
 	delete(d.lossy, string(key))
 
+	if fam, ok := d.family[string(key)]; ok && d.be.Kind() != kindSync {
+		// Backends indexed by the 64-bit hash may drop the colliding entry (a miss is allowed).
+		for other := range d.ref.m {
+			if f2, ok2 := d.family[other]; ok2 && f2 == fam && other != string(key) {
+				d.lossy[other] = true
+				d.c.Class("collision-displacement")
+			}
+		}
+	}
+
 	if !e.settled {
 		d.settle(key, e)
 	}
@@ -104,6 +116,11 @@ func (d *mapDriver) read(key []byte, skip, viaLoad bool) {
 	now := time.Now()
 	kind, e := d.ref.read(now, key)
 	lossy := d.lossy[string(key)]
+
+	if lossy {
+		d.c.Class("displaced-key-read")
+		d.c.NonTrivial()
+	}
 
 	if viaLoad {
 		v, ok := d.be.Load(k)
@@ -202,6 +219,12 @@ func (d *mapDriver) del(key []byte) {
 	present := d.ref.del(key)
 	lossy := d.lossy[string(key)]
 	delete(d.lossy, string(key))
+
+	if lossy {
+		d.c.Class("displaced-key-deleted")
+		d.c.NonTrivial()
+	}
+
 	d.c.Tracef("Delete(%s) = %v   model: present=%v", keyName(key), err, present)
 
 	if err == nil {
